@@ -321,8 +321,8 @@ class Callback(T):
 class PassThrough:
     """return value marker: return (a sub-slice of) the named borrowed parameter / self"""
 
-    def __init__(self, param, sub=False):
-        self.param, self.sub = param, sub
+    def __init__(self, param, sub=False, optional=False):
+        self.param, self.sub, self.optional = param, sub, optional
 
 
 # ------------------------------------------------------------------------------------------------
@@ -462,7 +462,11 @@ class Module:
         if m.ret is not None:
             if m.ret_from is not None:
                 p = m.ret_from.param
-                if m.ret_from.sub:
+                if m.ret_from.sub and m.ret_from.optional:
+                    # Option<borrowed slice>: None, or Some(prefix) - the prefix may be empty, which is still Some
+                    body.append("let r: %s = { let k = (vs::seed() & 3) as usize; let k = if k > %s.len() { %s.len() } else { k }; "
+                                "if vs::seed() & 1 == 1 { Some(&%s[..k]) } else { None } };" % (m.ret.rust(lt), p, p, p))
+                elif m.ret_from.sub:
                     body.append("let r: %s = { let k = (vs::seed() & 3) as usize; let k = if k > %s.len() { %s.len() } else { k }; &%s[..k] };"
                                 % (m.ret.rust(lt), p, p, p))
                 elif isinstance(m.ret, OpaqueRef) and m.ret.optional:
@@ -638,6 +642,9 @@ def m0_slices():
     m.method("Sl", "ret_slice", None, [("x", Slice(P("u16"), "ref"))], Slice(P("u16"), "ref"), ret_from=PassThrough("x", sub=True))
     m.method("Sl", "ret_str", None, [("x", Str("unval8"))], Str("unval8"), ret_from=PassThrough("x", sub=True))
     m.method("Sl", "ret_str16", None, [("x", Str("utf16"))], Str("utf16"), ret_from=PassThrough("x"))
+    m.method("Sl", "opt_ret_slice", None, [("x", Slice(P("u32"), "ref"))], Opt(Slice(P("u32"), "ref"), "std"), ret_from=PassThrough("x", sub=True, optional=True))
+    m.method("Sl", "opt_ret_str", None, [("x", Str("unval8"))], Opt(Str("unval8"), "std"), ret_from=PassThrough("x", sub=True, optional=True))
+    m.method("Sl", "opt_ret_str16", "ref", [("x", Str("utf16"))], Opt(Str("utf16"), "std"), ret_from=PassThrough("x", sub=True, optional=True))
     m.method("Sl", "views", None, [("v", StructT("Views", borrowed=True))], StructT("Views", borrowed=True), ret_from=PassThrough("v"))
     m.add(StructDef("Refs", [("o", OpaqueRef("Sl")), ("n", P("u8")), ("p", OpaqueRef("Sl", optional=True)), ("sl", Slice(P("i32"), "ref", "diplomat"))]))
     m.method("Sl", "refs", None, [("r", StructT("Refs", borrowed=True))], StructT("Refs", borrowed=True), ret_from=PassThrough("r"))
